@@ -1,10 +1,13 @@
 ------------------------------- MODULE ObjModel -------------------------------
 (* C11: edit histories of a Bf3File / Bec2File object.  State = what the public attributes expose:
-     comps     sequence of components: firmware with TYPE tag ("fwT"), firmware without ("fwU"), configuration ("cfg", c)
+     comps     sequence of components: firmware with TYPE tag ("fwT"), firmware without ("fwU"), firmware whose TYPE tag is the
+               two-byte value 00 03 ("fwW": numerically the configuration type, but not the configuration tag), configuration ("cfg", c)
      cm        the three configuration-derived comments plus one user comment ("Other") that no operation may touch
      auth      the authentication blocks in dict order
    Operations (one named action per parameter instance so that TLC's state-graph edges identify the call):
-     SetCfg_c, DeriveCm_c, DeriveAuthEcc_c, DeriveAuthCust_c (c = 1..3), AppendT, AppendU, InsertT, InsertU, WriteRead.
+     SetCfg_c, DeriveCm_c, DeriveAuthEcc_c, DeriveAuthCust_c (c = 1..4), AppendT/U/W, InsertT/U/W, WriteRead (BF3 framing),
+     FailedWrite (a BEC2 write refused for want of a customer-key encryptor), WriteReadBec2 (BEC2 framing with the right
+     encryptors, read back with the customer key and the security code: an observation, the object itself is kept).
    Configurations:  1 full naming scheme + security code + bus address;  2 name-only project settings, nothing else;
                     3 device settings only + security code, no bus-address flag;
                     4 full naming scheme with identifier VERSION 0 + security code (the update block carries version 0).
@@ -57,6 +60,12 @@ AddFw(kind, front) == /\ nfw < MaxFw /\ Tick(IF front THEN "insert" ELSE "append
                       /\ comps' = IF front THEN <<[k |-> kind, id |-> nfw + 1]>> \o comps ELSE Append(comps, [k |-> kind, id |-> nfw + 1])
                       /\ UNCHANGED <<cm, auth>>
 WriteRead == Tick("writeread", 0) /\ UNCHANGED <<comps, cm, auth, nfw>>     \* writing and reading back changes nothing observable
+HasKind(k) == \E j \in 1..Len(auth) : auth[j].kind = k
+\* a BEC2 write without encryptors is refused when a customer-key block is present (KeyError) - and changes nothing
+FailedWrite == HasKind("cust") /\ Tick("failedwrite", 0) /\ UNCHANGED <<comps, cm, auth, nfw>>
+\* BEC2 write with the proper encryptors; the file read back (customer key / security code) shows the same components, comments
+\* and blocks (an ECC block for the published key comes back opaque): observation only
+WriteReadBec2 == (HasKind("cust") \/ HasKind("update")) /\ Tick("writereadbec2", 0) /\ UNCHANGED <<comps, cm, auth, nfw>>
 
 SetCfg1 == SetCfg(1)   SetCfg2 == SetCfg(2)   SetCfg3 == SetCfg(3)   SetCfg4 == SetCfg(4)
 DeriveCm1 == DeriveCm(1)   DeriveCm2 == DeriveCm(2)   DeriveCm3 == DeriveCm(3)   DeriveCm4 == DeriveCm(4)
@@ -64,9 +73,10 @@ DeriveAuthEcc1 == DeriveAuth(1, "ecc")   DeriveAuthEcc2 == DeriveAuth(2, "ecc") 
 DeriveAuthCust1 == DeriveAuth(1, "cust")  DeriveAuthCust2 == DeriveAuth(2, "cust")
 DeriveAuthEcc4 == DeriveAuth(4, "ecc")   DeriveAuthCust4 == DeriveAuth(4, "cust")
 AppendT == AddFw("fwT", FALSE)   AppendU == AddFw("fwU", FALSE)   InsertT == AddFw("fwT", TRUE)   InsertU == AddFw("fwU", TRUE)
+AppendW == AddFw("fwW", FALSE)   InsertW == AddFw("fwW", TRUE)
 Next == SetCfg1 \/ SetCfg2 \/ SetCfg3 \/ SetCfg4 \/ DeriveCm1 \/ DeriveCm2 \/ DeriveCm3 \/ DeriveCm4 \/ DeriveAuthEcc4 \/ DeriveAuthCust4
         \/ DeriveAuthEcc1 \/ DeriveAuthEcc2 \/ DeriveAuthEcc3 \/ DeriveAuthCust1 \/ DeriveAuthCust2
-        \/ AppendT \/ AppendU \/ InsertT \/ InsertU \/ WriteRead
+        \/ AppendT \/ AppendU \/ InsertT \/ InsertU \/ AppendW \/ InsertW \/ WriteRead \/ FailedWrite \/ WriteReadBec2
 Spec == Init /\ [][Next]_vars
 
 \* ---- properties (C11)
